@@ -705,7 +705,8 @@ func replayOnce(binDir string, rf *ReplayFile) (bool, []string) {
 	tmp.Write(b)
 	tmp.Close()
 	t0 := time.Now()
-	res, diag, err := runSim(binDir, map[string]string{"HAPSIM_REPLAY": tmp.Name()}, 40*time.Second)
+	// (confirmation and minimisation candidates must stay inside the generator constraints of the open findings)
+	res, diag, err := runSim(binDir, map[string]string{"HAPSIM_REPLAY": tmp.Name(), "HAPSIM_VALIDATE_AVOID": "1"}, 40*time.Second)
 	if d := time.Since(t0); d > 5*time.Second && os.Getenv("HAPSIM_DEBUG") != "" {
 		keep := filepath.Join(os.TempDir(), fmt.Sprintf("hapsim-slow-%d.json", time.Now().UnixNano()))
 		os.WriteFile(keep, b, 0644)
